@@ -815,7 +815,7 @@ def c16(tier):
                     "procedure, FUNCTION items = declared + 10 predefined procedures, never a name local to another procedure), after `:=` and "
                     "the `(` of calls/conditions (variables), after `:` in parameter/variable declarations (STRUCT items = declared types + "
                     "int), and in top-level gaps (only proc/type/main starters).",
-                    ["items compared per kind as label sets; snippets and keywords are ignored"], "canon,nl")
+                    ["items compared per kind as label sets; snippets and keywords are ignored"], "canon,nl,min")
 
 
 # ---------------------------------------------------------------------------
